@@ -25,7 +25,7 @@ PLAN = dict(
     functions_under_contract=['tracing-log/src/lib.rs: format_trace (the entry point without LogTracer::enabled in front), NormalizeEvent::{normalized_metadata,is_log}', 'tracing-log/src/lib.rs: AsLog / AsTrace for Level, LevelFilter, log::Record, log::Metadata; dispatch_record; loglevel_to_cs', 'tracing-log/src/log_tracer.rs: LogTracer::{enabled,log}', 'tracing/src/macros.rs (feature log): if_log_enabled! - the gate is open iff no collector has ever been installed, whatever is current now; event! + __tracing_log! + MacroCallsite::log - one log record with the event\'s level and target iff the gate is open and log accepts the level (all five levels, any cached interest / published max level)'],
     trusted_base=['tracing -> log unit: tracing_core::dispatch::{has_been_set, get_default, get_current}, LevelFilter::current, callsite::register, log::logger and log::max_level are contract stubs over tagged harness state (sticky ever-installed flag; current = a collector or the no-op one; any max level; a recording logger with an arbitrary enabled() answer)', 'tracing_core::dispatch::get_default and LevelFilter::current replaced by contract stubs over tagged harness state (contracts: C02, C19/C01); driving the real statics cross-crate is defeated by the Kani 0.68 constant/static aliasing (DESIGN.md 0a)', "Kani 0.68 / CBMC 6.11 / CaDiCaL; Kani's std build (nightly-2026-08-21), not the repo toolchain's", 'core::fmt::Formatter::pad stubbed to Ok(()) with -Z stubbing (panic-message formatting on infeasible error branches; no harness that uses it reads formatted text)', 'cfg(kani) thread_local! shim and once_cell::sync::Lazy contract stub (see overlay_additions)'],
     assumptions=["C01's max-level invariant as precondition", "the message text of the event is core::fmt's"],
-    not_covered=['Span::log (the span lifecycle records of the tracing -> log direction) and the text of a mirrored record (LogValueSet formatting)', 'the log-always feature', 'ignore lists longer than one entry'],
+    not_covered=['Span::log (the span lifecycle records of the tracing -> log direction) and the text of a mirrored record (LogValueSet formatting)', 'the log-always feature', 'ignore lists longer than two entries'],
     kani=[dict(
         crate="tracing-log", tls_shim_crates=["tracing-core"], once_cell_stub=True,
         modules=[dict(name="__verif_c18", attach="lib", files=["log_bridge.kani.rs"])],
